@@ -8,6 +8,7 @@ import (
 	"fmt"
 	"math/big"
 	"math/rand/v2"
+	"os"
 
 	"github.com/oasisprotocol/curve25519-voi/curve"
 	"github.com/oasisprotocol/curve25519-voi/curve/scalar"
@@ -228,24 +229,73 @@ func montU(p ref.Pt) []byte {
 	return ref.LE32(u.Mod(u, ref.P))
 }
 
+// two32 = 2^32 where int has 64 bits (0 on 32-bit targets; computed at run time so that it compiles there)
+var two32 = func() int { one := 1; return one << 32 }()
+
+// hugeLengths: lengths that differ from 32 only above bit 31 (2^32 + 32, 2^32: a valid encoding followed by untouched
+// virtual memory). A length check done in 32 bits takes them for valid. Runs alone, after the parallel phase, on
+// 64-bit targets.
+func hugeLengths(r *mon.Run) {
+	if two32 == 0 || os.Getenv("VERIF_NO_HUGE") != "" || (r.Config() != "avx2" && r.Config() != "purego" && r.Replay == "") {
+		return // the length checks are shared code: two configurations are enough, and 4 GiB of address space each is not free
+	}
+	c := Case{Kind: "huge-lengths"}
+	huge := make([]byte, two32+64)
+	copy(huge, bB)
+	for _, l := range []int{two32 + 32, two32} {
+		b := huge[:l]
+		det := func() string { return fmt.Sprintf("len=2^32+%d (valid encoding followed by zeros)", l-two32) }
+		r.Eval([]byte(det()))
+		r.Hist("lengths-above-2^32")
+		p := curve.NewEdwardsPoint().Set(curve.ED25519_BASEPOINT_POINT)
+		var err error
+		if pan, msg := mon.Try(func() { err = p.UnmarshalBinary(b) }); pan || err == nil || !p.IsIdentity() {
+			r.Violate("edwards/EdwardsPoint.UnmarshalBinary/wrong-length-accepted", fmt.Sprintf("panic=%v %s err=%v receiver identity=%v; %s", pan, msg, err, p.IsIdentity(), det()), c)
+		}
+		var cy curve.CompressedEdwardsY
+		copy(cy[:], bB)
+		if pan, _ := mon.Try(func() { err = cy.UnmarshalBinary(b) }); pan || err == nil || !bytes.Equal(cy[:], identityEnc) {
+			r.Violate("edwards/CompressedEdwardsY.UnmarshalBinary/wrong-length-accepted", det(), c)
+		}
+		var c2 curve.CompressedEdwardsY
+		if res, err := c2.SetBytes(b); err == nil || res != nil {
+			r.Violate("edwards/CompressedEdwardsY.SetBytes/wrong-length-accepted", det(), c)
+		}
+		if res, err := curve.NewCompressedEdwardsYFromBytes(b); err == nil || res != nil {
+			r.Violate("edwards/NewCompressedEdwardsYFromBytes/wrong-length-accepted", det(), c)
+		}
+		var m curve.MontgomeryPoint
+		if res, err := m.SetBytes(b); err == nil || res != nil {
+			r.Violate("montgomery/SetBytes/wrong-length-accepted", det(), c)
+		}
+	}
+}
+
 func (x *ctx) lengths(rng *rand.Rand) {
 	r := x.r
+	ls := []int{}
 	for l := 0; l <= 70; l++ {
+		ls = append(ls, l)
+	}
+	ls = append(ls, 255, 256, 288, 1<<16+32)
+	for _, l := range ls {
 		if l == 32 {
 			continue
 		}
 		for _, fill := range []int{0, 1, 2} {
 			var b []byte
-			switch fill {
-			case 0:
-				b = make([]byte, l)
-			case 1:
-				b = bytes.Repeat([]byte{0xff}, l)
-			default: // valid prefix + junk
-				b = make([]byte, l)
-				copy(b, bB)
-				if l > 32 {
-					copy(b[32:], mon.Bytes(rng, l-32))
+			{
+				switch fill {
+				case 0:
+					b = make([]byte, l)
+				case 1:
+					b = bytes.Repeat([]byte{0xff}, l)
+				default: // valid prefix + junk
+					b = make([]byte, l)
+					copy(b, bB)
+					if l > 32 {
+						copy(b[32:], mon.Bytes(rng, l-32))
+					}
 				}
 			}
 			det := func() string { return fmt.Sprintf("len=%d fill=%d", l, fill) }
@@ -530,6 +580,8 @@ func runCase(r *mon.Run, c Case) {
 		}
 	case "lengths":
 		x.lengths(rng)
+	case "huge-lengths":
+		hugeLengths(r)
 	case "points":
 		x.points(rng)
 	case "montgomery":
@@ -568,5 +620,6 @@ func main() {
 	r.Sample("case", cases[0])
 	r.Sample("case", cases[len(cases)-1])
 	r.Sample("string", mon.Hex(gen.SpecialEncodings()[3]))
+	hugeLengths(r)
 	r.Finish()
 }
